@@ -47,3 +47,26 @@ Example ex_doc_scale_hz :
   = [0; 4602678819172646912; 4607182418800017408; 4602678819172646912; 0;
      13826050856027422720; 13830554455654793216; 13826050856027422720]%Z.
 Proof. vm_compute. reflexivity. Qed.
+
+(* ---- setters / accessors between outputs (Signal/ConverterOps.v): non-vacuity of c08_set_same_ratio and
+   c08_rebuild on the binary64 model.  i16 source 100 200 300 400 500 at ratio exactly 1 (44100/44100), Linear;
+   after two outputs the accumulator holds exactly 1.0 (a whole frame pending): set_hz_to_hz(44100, 44100) there
+   changes nothing; then a source() look, a source_mut() pull (frame 500 is taken away: the next output blends 400 with the equilibrium the exhausted source yields), a rebuild at ratio 0.5 *)
+From Dasp Require Import Signal.ConverterOps Signal.ConverterOpsProofs.
+Definition ex_hz : Z := 4676293871431319552%Z.      (* 44100.0 *)
+(* over the reals: a converter running at 44100/44100 = 1; announcing the same rates again is the identity *)
+Example ex_same_ratio (s : source fmt_R) (i : interp fmt_R) :
+  let c := start s i 1%R in
+  (44100 / 44100 = ratio c)%R /\ set_hz_to_hz c 44100%R 44100%R = c.
+Proof.
+  cbv zeta. assert (H : (44100 / 44100 = ratio (start s i 1))%R) by (unfold start; cbn [ratio]; field).
+  split; [exact H|]. exact (proj1 (proj2 (@set_same_ratio NR fmt_R (start s i 1%R) 1%R 44100%R 44100%R)) H).
+Qed.
+
+Example ex_ops_run :
+  run_case (ZCase 2 1 1 [[100]; [200]; [300]; [400]; [500]]%Z (CHz ex_hz ex_hz)
+              [ZNext; ZNext; ZSetHz ex_hz ex_hz; ZSource; ZNext; ZSrcPull; ZNext; ZRebuild (CScale 4602678819172646912%Z); ZNext; ZNext] 0)
+  = [[0; 2; 3]; [1; 0; 2; 3; 4607182418800017408; 100]; [1; 0; 3; 4; 4607182418800017408; 200]; [3]; [6; 0; 3; 4];
+     [1; 0; 4; 5; 4607182418800017408; 300]; [7; 5; 6; 500]; [1; 1; 6; 6; 4607182418800017408; 400];
+     [0; 8; 6]; [1; 0; 8; 6; 4602678819172646912; 0]; [1; 0; 8; 6; 4607182418800017408; 0]]%Z.
+Proof. vm_compute. reflexivity. Qed.
